@@ -126,6 +126,11 @@ type Scenario struct {
 	Epilogue []Op             `json:"epilogue,omitempty"` // run by root after all clients joined
 	Avoid    []string         `json:"avoid,omitempty"`    // known-finding triggers this scenario was generated to avoid
 	Params   map[string]int64 `json:"params,omitempty"`
+	// recorded scheduling choices (index into the kernel's candidate list at every
+	// scheduling decision); when UseChoices is set the run follows them instead of
+	// drawing the schedule from the seed - this is what schedule minimisation edits
+	Choices    []int32 `json:"choices,omitempty"`
+	UseChoices bool    `json:"use_choices,omitempty"`
 }
 
 // ---------------- recorded history ----------------
